@@ -536,6 +536,27 @@ pub fn on_vbegin(id: Oid, canary_ok: bool) {
         drop(m);
         violate(View::Mem, &format!("destructor of object {} ran although it was already {:?}", id, st));
     }
+    // C06: a handle the program holds directly must report the number of
+    // existing handles; if the library is destroying the object although it is
+    // held, the count read through that handle is already wrong here
+    if let Some(ri) = m.roots.iter().position(|&r| r == id) {
+        if let Ok(roots) = wd.roots.try_borrow() {
+            if let Some(lr) = roots.get(ri) {
+                if lr.target == id {
+                    let prev = set_phase(Phase::HeldDeref);
+                    let sc = Rc::strong_count(&lr.h);
+                    shared().phase = prev;
+                    let ms = m.strong(id);
+                    if sc != ms {
+                        violate_soft(
+                            View::Count,
+                            &format!("object {}: strong_count read through a held handle is {} but {} strong handle instances exist (the object is being destroyed while held)", id, sc, ms),
+                        );
+                    }
+                }
+            }
+        }
+    }
     let (seen, _) = m.reach();
     if seen[id as usize] {
         let msg = format!(
